@@ -316,3 +316,169 @@ def vc_inmem_closeto(prog, what='nodes', max_elmt_none=True, triple=False):
     rep = verify_function(prog, fv, setup, goals, models=models, hooks=hooks, end_goals=end_goals,
                           name=f"InMemMap.{what}_closeto[{'no-max_elmt' if max_elmt_none else 'max_elmt'},{'triple' if triple else 'pair'}]")
     return fv, rep
+
+
+# ------------------------------------------------------------------------------------------ InMemMap neighbour queries (C04, C12)
+gyf = z3.Function('node_y', Label, z3.RealSort())
+gxf = z3.Function('node_x', Label, z3.RealSort())
+in_graph = z3.Function('label_in_graph', Label, z3.BoolSort())
+has_loc = z3.Function('node_has_location', Label, z3.BoolSort())
+lists = z3.Function('neighbour_list_of_contains', Label, Label, z3.BoolSort())
+
+
+def adj_view(a, b):
+    """abstract view of the in-memory graph: b is a neighbour of a iff a's list names it and b is a node with a location"""
+    return z3.And(lists(a, b), in_graph(b), has_loc(b))
+
+
+def mk_inmem_graph(ctx_holder=None):
+    def val_factory(it_, key):
+        def nb_elem(it2):
+            b = it2.ctx.fresh('listed', 'L')
+            return b, [lists(key, b)]           # a listed label need not be a node of the graph (dangling reference)
+        if it_.ctx.choice(2, 'location-missing') == 0:
+            it_.ctx.assume(has_loc(key))
+            loc = (gyf(key), gxf(key))
+        else:
+            it_.ctx.assume(z3.Not(has_loc(key)))
+            loc = None
+        return (loc, SymColl('nbrs', nb_elem))
+    return SymDict('graph', val_factory, lambda it_: it_.ctx.fresh('node', 'L'), has_hook=lambda it_, k: in_graph(k))
+
+
+def vc_inmem_nodes_nbrto(prog):
+    """InMemMap.nodes_nbrto against the abstract view (graph of ARBITRARY size, neighbour lists of arbitrary length, dangling
+    references and nodes without a location allowed): foreach rule over `nbrs + [node]`; an arbitrary listed label x contributes
+    exactly one tuple (x, location of x) iff x is a node with a location, nothing otherwise (a dangling reference raises nothing);
+    every label returned is a neighbour in the abstract view or the node itself - the contract the matcher-side proofs ASSUME of
+    `map.nodes_nbrto` (orchestration.m_nodes_nbrto) is hereby discharged for the in-memory backend; a label that is not a node
+    has no neighbours."""
+    load(prog)
+    fv = prog.func(MINMEM, 'InMemMap.nodes_nbrto')
+    st = {}
+    node = z3.Const('queried_node', Label)
+
+    def setup(ctx, it):
+        st.clear()
+        graph = mk_inmem_graph()
+        o = Obj('InMemMap', graph=graph)
+        st.update(o=o, graph=graph, pre=dict(o.f))
+        return [o, node], {}
+
+    def end_goals(ctx, why):
+        begins = [e for e in ctx.events if e.kind == 'iter-begin']
+        if not begins:
+            return []
+        x = begins[-1].elem
+        apps = [e for e in ctx.events if e.kind == 'append']
+        g = [('nbrs:element-is-a-label', b2z(z3.is_expr(x) and x.sort() == Label))]
+        if not (z3.is_expr(x) and x.sort() == Label):
+            return g
+        g.append(('nbrs:iterates-the-listed-labels-and-the-node-itself', z3.Or(lists(node, x), x == node)))
+        present = z3.And(in_graph(x), has_loc(x))
+        g.append(('nbrs:a-tuple-only-for-a-node-with-a-location-and-at-most-one', present if len(apps) == 1 else z3.BoolVal(len(apps) == 0)))
+        g.append(('nbrs:complete(every listed node with a location is returned)', z3.Not(present) if len(apps) == 0 else z3.BoolVal(True)))
+        if len(apps) == 1:
+            v = apps[0].value
+            ok = isinstance(v, tuple) and len(v) == 2 and isinstance(v[1], tuple) and len(v[1]) == 2
+            g.append(('nbrs:tuple-is-(label,location-of-that-label)', b2z(ok and zand(eq(v[0], x), eq(v[1][0], gyf(x)), eq(v[1][1], gxf(x))))))
+            if ok and z3.is_expr(v[0]):
+                g.append(('nbrs:returned-label-is-a-neighbour-in-the-abstract-view-or-the-node-itself', z3.Or(adj_view(node, v[0]), v[0] == node)))
+        g.append(('nbrs:graph-not-written', b2z(not st['graph'].writes and all(st['o'].f.get(k) is st['pre'][k] for k in st['pre']))))
+        return g
+
+    def goals(ctx, res):
+        g = [('nbrs:graph-not-written', b2z(not st['graph'].writes and all(st['o'].f.get(k) is st['pre'][k] for k in st['pre'])))]
+        if isinstance(res, Accum):
+            g.append(('nbrs:result-starts-empty', b2z(len(res.init) == 0 and len(res.appended) == 0)))
+        else:
+            g.append(('nbrs:complete(no neighbours only for a label that is not a node - asked for a node that has a location)', z3.Implies(has_loc(node), z3.And(b2z(isinstance(res, list) and len(res) == 0), z3.Not(in_graph(node))))))
+        return g
+    rep = verify_function(prog, fv, setup, goals, end_goals=end_goals, name="InMemMap.nodes_nbrto")
+    return fv, rep
+
+
+linked_view = z3.Function('linked_edges_of_contains', Label, Label, Label, Label, z3.BoolSort())
+
+
+def vc_edges_nbrto(prog, cls='InMemMap', linked='some'):
+    """InMemMap.edges_nbrto / the default BaseMap.edges_nbrto against the abstract view.  Callee contracts: nodes_nbrto (proved
+    for the in-memory backend in vc_inmem_nodes_nbrto) and node_coordinates (one line, inlined).  For an ARBITRARY tuple the end
+    node's neighbour query yields, exactly one edge (l2, location of l2, l3, location of l3) is offered - the edges LEAVING THE
+    END NODE of the given edge; for an arbitrary pair (l3, l4) declared as linked to this directed edge exactly one edge
+    (l3, loc, l4, loc); nothing else is offered and nothing is written: what the matcher-side proofs assume of
+    `map.edges_nbrto` (orchestration.m_edges_nbrto)."""
+    load(prog)
+    fv = prog.func(MINMEM if cls == 'InMemMap' else MBASE, f'{cls}.edges_nbrto')
+    st = {}
+    l1, l2 = z3.Const('edge_l1', Label), z3.Const('edge_l2', Label)
+
+    def setup(ctx, it):
+        st.clear()
+        graph = mk_inmem_graph()
+
+        def linked_val(it_, key):
+            def pair(it2):
+                a, b = it2.ctx.fresh('lk1', 'L'), it2.ctx.fresh('lk2', 'L')
+                return (a, b), [linked_view(key[0], key[1], a, b), in_graph(a), in_graph(b), has_loc(a), has_loc(b)]
+            return SymColl('linked-to', pair, ordered=False)
+        le = {'none': None, 'empty': {}, 'some': SymDict('linked_edges', linked_val, None)}[linked]
+        o = Obj(cls, graph=graph, linked_edges=le)
+        st.update(o=o, graph=graph, pre=dict(o.f), q=[])
+        ctx.assume(in_graph(l1), in_graph(l2), has_loc(l1), has_loc(l2))      # the edge handed in is an edge of the map
+        return [o, (l1, l2)], {}
+
+    def c_nodes_nbrto(it, fv_, args, kw):
+        nd = args[1]
+        st['q'].append(nd)
+
+        def elem(it_):
+            l = it_.ctx.fresh('nbr', 'L')
+            return (l, (gyf(l), gxf(l))), [z3.Or(adj_view(nd, l), l == nd), in_graph(l), has_loc(l)]
+        return SymColl('nodes_nbrto', elem)
+
+    def c_node_coordinates(it, fv_, args, kw):
+        return (gyf(args[1]), gxf(args[1]))
+
+    def frame():
+        return b2z(not st['graph'].writes and all(st['o'].f.get(k) is st['pre'][k] for k in st['pre'])
+                   and not (isinstance(st['o'].f.get('linked_edges'), SymDict) and st['o'].f['linked_edges'].writes))
+
+    def end_goals(ctx, why):
+        begins = [e for e in ctx.events if e.kind == 'iter-begin']
+        apps = [e for e in ctx.events if e.kind == 'append']
+        if not begins:
+            return []
+        x = begins[-1].elem
+        g = [('enbrs:map-not-written', frame()), ('enbrs:complete(one edge per listed element)', b2z(len(apps) == 1)), ('enbrs:at-most-one-edge-per-listed-element', b2z(len(apps) <= 1))]
+        if len(apps) != 1 or not (isinstance(x, tuple) and len(x) == 2):
+            return g + [('enbrs:element-shape', b2z(isinstance(x, tuple) and len(x) == 2))]
+        v = apps[0].value
+        okv = isinstance(v, tuple) and len(v) == 4 and all(isinstance(v[i], tuple) and len(v[i]) == 2 for i in (1, 3)) and all(z3.is_expr(v[i]) for i in (0, 2))
+        g.append(('enbrs:tuple-shape-(label,location,label,location)', b2z(okv)))
+        if not okv:
+            return g
+        a, ca, b, cb = v
+        g.append(('enbrs:locations-are-the-maps-locations-of-the-labels', z3.And(ca[0] == gyf(a), ca[1] == gxf(a), cb[0] == gyf(b), cb[1] == gxf(b))))
+        if isinstance(x[1], tuple):
+            # element of the end node's neighbour query: (l3, p3)
+            g.append(('enbrs:neighbour-query-is-asked-for-the-END-node', b2z(len(st['q']) == 1 and eq(st['q'][0], l2) is True)))
+            g.append(('enbrs:offered-edge-leaves-the-end-node-towards-the-listed-neighbour', z3.And(a == l2, b == x[0])))
+            g.append(('enbrs:offered-edge-is-a-move-of-the-abstract-view', z3.And(a == l2, z3.Or(adj_view(l2, b), b == l2))))
+        else:
+            g.append(('enbrs:linked-edge-is-the-declared-pair', z3.And(a == x[0], b == x[1])))
+            g.append(('enbrs:linked-edge-is-declared-for-THIS-directed-edge', linked_view(l1, l2, a, b)))
+            g.append(('enbrs:links-only-on-a-backend-that-has-them', b2z(cls == 'InMemMap' and linked == 'some')))
+        return g
+
+    def goals(ctx, res):
+        g = [('enbrs:map-not-written', frame()),
+             ('enbrs:result-is-the-accumulated-list-starting-empty', b2z(isinstance(res, Accum) and len(res.init) == 0 and len(res.appended) == 0) if isinstance(res, Accum)
+              else b2z(isinstance(res, list) and len(res) == 0 and False)),
+             ('enbrs:neighbour-query-is-asked-for-the-END-node', b2z(len(st['q']) == 1 and eq(st['q'][0], l2) is True))]
+        return g
+    rep = verify_function(prog, fv, setup, goals, end_goals=end_goals,
+                          contracts={f'{cls}.nodes_nbrto': c_nodes_nbrto, f'{cls}.node_coordinates': c_node_coordinates,
+                                     'BaseMap.nodes_nbrto': c_nodes_nbrto, 'BaseMap.node_coordinates': c_node_coordinates},
+                          name=f"{cls}.edges_nbrto[linked_edges={linked}]")
+    return fv, rep
